@@ -80,6 +80,9 @@ let run (op_full : string) (a : string array) : string =
        | r -> show_res (fun _ -> "") r)
   | "to_string" -> show_res hex (to_string_w (unhex a.(0)))
   | "to_pretty_string" -> show_res hex (to_pretty_string_w (unhex a.(0)))
+  (* the same two model functions; the harness prints the rendering byte for byte under these names (no float canonicalisation) *)
+  | "to_string_bytes" -> show_res hex (to_string_w (unhex a.(0)))
+  | "to_pretty_string_bytes" -> show_res hex (to_pretty_string_w (unhex a.(0)))
   | "compare" -> show_res (fun c -> "=" ^ show_cmp c) (compare_w (unhex a.(0)) (unhex a.(1)))
   | "cmp_value" -> "ok =" ^ show_cmp (cmp_value (parse_val a.(0)) (parse_val a.(1)))
   | "convert_to_comparable" -> show_res hex (comparable_w (unhex a.(0)) prefix)
@@ -171,7 +174,11 @@ let run (op_full : string) (a : string array) : string =
        | Ok ps ->
            let second = (match parse_json_path (show_json_path float_placeholder ps) with
                          | Ok ps2 -> show_paths ps2 | Err _ -> "err" | Panic -> "panic") in
+           (* anyf=1: the path is in the class of the round-trip theorem once float literals are let in (PathImage: leaf_path okf with
+              okf = everything); with leaf=0 this says "only the floats keep it out": the judge then requires parsed = reparsed of the
+              implementation alone (the model prints a placeholder for floats, so its own second parse says nothing) *)
            "ok " ^ show_paths ps ^ " " ^ second ^ (if leaf_path no_floats ps then " leaf=1" else " leaf=0")
+           ^ (if leaf_path (fun _ -> true) ps then " anyf=1" else " anyf=0")
        | Err e -> "err " ^ show_err e
        | Panic -> "panic")
   | "print_parse_key_paths" ->
